@@ -64,6 +64,11 @@ func checkFront(src string) []h.Failure {
 		if len(missing) > 0 {
 			return []h.Failure{{Sig: "front/incomplete-tree@" + missing[0], Msg: fmt.Sprintf("source %q: accepted, but the tree lacks required parts %v", src, missing)}}
 		}
+		// a tree for the whole text, not for a prefix of it: the front end has read every
+		// character before it accepted the program
+		if cur := pr.Parser.GetCursor(); cur < len(runes) {
+			return []h.Failure{{Sig: "front/accepted-without-reading-all", Msg: fmt.Sprintf("source %q (%d chars): accepted after reading %d characters only - the tree stands for a prefix of the text", src, len(runes), cur)}}
+		}
 		return nil
 	}
 	// error path
@@ -148,7 +153,9 @@ func checkVarInput(src string) []h.Failure {
 // inputs
 
 var hostile = []string{"`", "“", "”", "「", "」", "‘", "’", "『", "』", "《", "》", "【", "】", "（", "）", "{", "}", "\r", "\n", "\r\n", "\t", "    ", " ", "\x00", "注", "注：", "注1：「", "/", "*", "/*", "*/", "//", "：", "？", "！", "，", "、", "；", "=", "#", "&", "@", "|", "%", "~", "😊", "𝒳", "​", "　",
-	"令", "为", "以", "其", "之", "的", "如果", "再如", "否则", "每当", "遍历", "如何", "何为", "输入", "输出", "导入", "定义", "拦截", "抛出", "新建", "得到", "恒为", "设为", "继续循环", "结束循环", "且", "或", "等于", "不为", "`U+", "`CR`", "`BK`", "1", "A", "异常"}
+	"令", "为", "以", "其", "之", "的", "如果", "再如", "否则", "每当", "遍历", "如何", "何为", "输入", "输出", "导入", "定义", "拦截", "抛出", "新建", "得到", "恒为", "设为", "继续循环", "结束循环", "且", "或", "等于", "不为", "`U+", "`CR`", "`BK`", "1", "A", "异常",
+	// the ASCII twins of the punctuation marks
+	",", ":", ";", "?", "!", "[", "]", "(", ")", "==", "/=", ">=", "<=", "<", ">", "+", "-", ".", "\"", "'"}
 
 func mutate(t *rapid.T, seeds []string) string {
 	base := []rune(rapid.SampledFrom(seeds).Draw(t, "seed"))
